@@ -20,8 +20,8 @@ pub fn def() -> CheckDef {
     CheckDef {
         id: "C08",
         level: "exploration",
-        runs_quick: 150_000,
-        runs_thorough: 3_000_000,
+        runs_quick: 500_000,
+        runs_thorough: 10_000_000,
         rule: "twin runs of the real code: a byte string cut by a seeded composition into pieces (empty pieces, pieces ending exactly on a block boundary followed by 1-byte pieces, pieces straddling 1..many boundaries; each piece through one of 6 call forms) vs one call on the whole string, for the 8 byte-stream aliases (from offset 0 or after a common seek) and BufEncryptor/BufDecryptor; one-shot CFB/CFB-8 compared with the one-shot on a prefix. distinct = distinct (type, block size, cipher, policy, start offset class, per-piece (cursor, length mod bs, form) sequence); non-trivial = >= 2 non-empty pieces or a proper prefix",
         required_probes: &["empty_piece_mid_block", "piece_ends_on_boundary_then_short", "straddle_many", "ctr32", "ctr64", "bs_not_16", "all_cursors_small_bs", "prefix_partial_block"],
         r#gen,
